@@ -218,12 +218,18 @@ func (x *X) srcs(list []ast.Stmt) []string {
 	return out
 }
 
-// wantStmts checks that list consists of exactly the statements with these source texts; "*" matches any.
+// wantStmts checks that list consists of exactly the statements with these source texts; "*" matches any,
+// "a ||| b" matches either spelling (equivalent statements).  The texts are compared after the
+// normalisations of canon.go / normalize.go: locals carry their pinned names, `var i int` reads `i := 0`,
+// counting loops read `for i := range n`.
 func (x *X) wantStmts(where string, list []ast.Stmt, texts ...string) bool {
 	got := x.srcs(list)
 	ok := len(got) == len(texts)
 	for i := 0; ok && i < len(texts); i++ {
-		ok = texts[i] == "*" || got[i] == texts[i]
+		ok = texts[i] == "*"
+		for _, alt := range strings.Split(texts[i], " ||| ") {
+			ok = ok || got[i] == alt
+		}
 	}
 	if !ok {
 		x.fail("%s: expected statements %q, found %q", where, texts, got)
@@ -238,6 +244,226 @@ func (x *X) methodsOf(rel, recv string) []*ast.FuncDecl {
 		if fd, ok := d.(*ast.FuncDecl); ok && fd.Recv != nil && len(fd.Recv.List) == 1 && recvName(fd.Recv.List[0].Type) == recv && fd.Body != nil {
 			out = append(out, fd)
 		}
+	}
+	return out
+}
+
+// inlineLocals substitutes the named locals of fn where they are one-step aliases (normalize.go), also when they
+// exist on the pinned tree: the caller's expected texts are then written WITHOUT these temporaries, and match
+// the source whether or not it spells them (`ret := int(low); return ret` / `return int(low)`).
+func (x *X) inlineLocals(fn *ast.FuncDecl, names ...string) {
+	var objs []*ast.Object
+	for _, o := range localObjs(fn) {
+		for _, n := range names {
+			if o.Name == n {
+				objs = append(objs, o)
+			}
+		}
+	}
+	inlineNewAliases(nil, fn, objs)
+}
+
+// negate returns the negation of a condition, pushing it into comparisons and through && / || / !.
+func negate(e ast.Expr) ast.Expr {
+	switch t := e.(type) {
+	case *ast.ParenExpr:
+		return negate(t.X)
+	case *ast.UnaryExpr:
+		if t.Op == token.NOT {
+			if p, ok := t.X.(*ast.ParenExpr); ok {
+				return p.X
+			}
+			return t.X
+		}
+	case *ast.BinaryExpr:
+		flipped := map[token.Token]token.Token{token.EQL: token.NEQ, token.NEQ: token.EQL, token.LSS: token.GEQ, token.GEQ: token.LSS, token.GTR: token.LEQ, token.LEQ: token.GTR}
+		if op, ok := flipped[t.Op]; ok {
+			return &ast.BinaryExpr{X: t.X, OpPos: t.OpPos, Op: op, Y: t.Y}
+		}
+		if t.Op == token.LAND {
+			return &ast.BinaryExpr{X: negate(t.X), OpPos: t.OpPos, Op: token.LOR, Y: negate(t.Y)}
+		}
+		if t.Op == token.LOR {
+			// operands of && that are themselves || need parentheses; negate never produces || below && here
+			return &ast.BinaryExpr{X: parenIfOr(negate(t.X)), OpPos: t.OpPos, Op: token.LAND, Y: parenIfOr(negate(t.Y))}
+		}
+	}
+	switch e.(type) {
+	case *ast.Ident, *ast.SelectorExpr, *ast.CallExpr, *ast.IndexExpr:
+		return &ast.UnaryExpr{OpPos: e.Pos(), Op: token.NOT, X: e}
+	}
+	return &ast.UnaryExpr{OpPos: e.Pos(), Op: token.NOT, X: &ast.ParenExpr{Lparen: e.Pos(), X: e, Rparen: e.End()}}
+}
+
+func parenIfOr(e ast.Expr) ast.Expr {
+	if b, ok := e.(*ast.BinaryExpr); ok && b.Op == token.LOR {
+		return &ast.ParenExpr{Lparen: e.Pos(), X: e, Rparen: e.End()}
+	}
+	return e
+}
+
+// orientIf gives the two branches of `if c { A } else { B }` their ROLES by content, not by position: isFirst
+// recognises the branch that plays the first role.  When that is the else-branch, the branches are returned
+// swapped together with the negated condition, so `if c { A } else { B }` and `if !c { B } else { A }` translate
+// to the same facts.  ok is false when there is no plain else-block.
+func orientIf(st *ast.IfStmt, isFirst func([]ast.Stmt) bool) (cond ast.Expr, first, second []ast.Stmt, ok bool) {
+	els, isBlock := st.Else.(*ast.BlockStmt)
+	if !isBlock || st.Init != nil {
+		return st.Cond, st.Body.List, nil, false
+	}
+	if !isFirst(st.Body.List) && isFirst(els.List) {
+		return negate(st.Cond), els.List, st.Body.List, true
+	}
+	return st.Cond, st.Body.List, els.List, true
+}
+
+// constInt reports whether e is an integer constant expression over literals.
+func constInt(e ast.Expr) bool {
+	switch t := e.(type) {
+	case *ast.BasicLit:
+		return t.Kind == token.INT
+	case *ast.ParenExpr:
+		return constInt(t.X)
+	case *ast.UnaryExpr:
+		return (t.Op == token.SUB || t.Op == token.ADD) && constInt(t.X)
+	case *ast.BinaryExpr:
+		return constInt(t.X) && constInt(t.Y)
+	}
+	return false
+}
+
+// nnf pushes negations inward (`!(a || b)` reads `!a && !b`, `!(x < y)` reads `x >= y`), so that condition
+// texts are compared modulo De Morgan.
+func nnf(e ast.Expr) ast.Expr {
+	switch t := e.(type) {
+	case *ast.ParenExpr:
+		in := nnf(t.X)
+		if _, bin := in.(*ast.BinaryExpr); bin {
+			return &ast.ParenExpr{Lparen: t.Lparen, X: in, Rparen: t.Rparen}
+		}
+		return in
+	case *ast.UnaryExpr:
+		if t.Op == token.NOT {
+			in := t.X
+			for {
+				p, ok := in.(*ast.ParenExpr)
+				if !ok {
+					break
+				}
+				in = p.X
+			}
+			switch k := in.(type) {
+			case *ast.BinaryExpr:
+				if _, cmp := map[token.Token]bool{token.EQL: true, token.NEQ: true, token.LSS: true, token.LEQ: true, token.GTR: true, token.GEQ: true, token.LAND: true, token.LOR: true}[k.Op]; cmp {
+					return nnf(negate(k))
+				}
+			case *ast.UnaryExpr:
+				if k.Op == token.NOT {
+					return nnf(k.X)
+				}
+			}
+		}
+	case *ast.BinaryExpr:
+		if t.Op == token.LAND || t.Op == token.LOR {
+			return &ast.BinaryExpr{X: nnf(t.X), OpPos: t.OpPos, Op: t.Op, Y: nnf(t.Y)}
+		}
+	}
+	return e
+}
+
+// matchStmts is wantStmts without the failure record.
+func (x *X) matchStmts(list []ast.Stmt, texts ...string) bool {
+	got := x.srcs(list)
+	if len(got) != len(texts) {
+		return false
+	}
+	for i := range texts {
+		ok := texts[i] == "*"
+		for _, alt := range strings.Split(texts[i], " ||| ") {
+			ok = ok || got[i] == alt
+		}
+		if !ok {
+			return false
+		}
+	}
+	return true
+}
+
+// isNonEmptyTest reports whether e says `<lenText> != 0` in one of its spellings
+// (`!= 0`, `> 0`, `>= 1`, `0 != …`, `0 < …`, `1 <= …`, `!(… == 0)`).
+func (x *X) isNonEmptyTest(e ast.Expr, lenText string) bool {
+	b, ok := nnf(e).(*ast.BinaryExpr)
+	if !ok {
+		return false
+	}
+	l, r, op := x.Src(b.X), x.Src(b.Y), b.Op
+	if r == lenText {
+		l, r, op = r, l, flip(op)
+	}
+	if l != lenText {
+		return false
+	}
+	return (r == "0" && (op == token.NEQ || op == token.GTR)) || (r == "1" && op == token.GEQ)
+}
+
+// terminates: does control never fall out of the end of this block (return, panic, break, continue, goto)?
+func terminates(b *ast.BlockStmt) bool {
+	if b == nil || len(b.List) == 0 {
+		return false
+	}
+	switch t := b.List[len(b.List)-1].(type) {
+	case *ast.ReturnStmt, *ast.BranchStmt:
+		return true
+	case *ast.ExprStmt:
+		if c, ok := t.X.(*ast.CallExpr); ok {
+			if id, ok := c.Fun.(*ast.Ident); ok && id.Name == "panic" && id.Obj == nil {
+				return true
+			}
+		}
+	}
+	return false
+}
+
+// mergeElseIf reads `if A { …; return }` directly followed by `if B { … }` as `if A { …; return } else if B { … }`
+// (repeatedly): when every branch before it leaves the function or loop, the second `if` is reached exactly when
+// an `else` would be.  The input list is not modified.
+func mergeElseIf(list []ast.Stmt) []ast.Stmt {
+	out := append([]ast.Stmt(nil), list...)
+	for i := 0; i+1 < len(out); {
+		a, ok1 := out[i].(*ast.IfStmt)
+		b, ok2 := out[i+1].(*ast.IfStmt)
+		if !ok1 || !ok2 || b.Init != nil {
+			i++
+			continue
+		}
+		// walk to the end of a's else-if chain; every branch must terminate and the chain must have no final else
+		allTerm := true
+		last := a
+		for {
+			allTerm = allTerm && terminates(last.Body)
+			next, isIf := last.Else.(*ast.IfStmt)
+			if !isIf {
+				break
+			}
+			last = next
+		}
+		if !allTerm || last.Else != nil {
+			i++
+			continue
+		}
+		// copy the chain so that the parsed tree stays as it is
+		var cp func(s *ast.IfStmt) *ast.IfStmt
+		cp = func(s *ast.IfStmt) *ast.IfStmt {
+			c := *s
+			if e, ok := s.Else.(*ast.IfStmt); ok {
+				c.Else = cp(e)
+			} else {
+				c.Else = b
+			}
+			return &c
+		}
+		out[i] = cp(a)
+		out = append(out[:i+1], out[i+2:]...)
 	}
 	return out
 }
